@@ -15,7 +15,6 @@ import (
 	"os"
 	"os/exec"
 	"path/filepath"
-	"reflect"
 	"sort"
 	"strconv"
 	"strings"
@@ -44,15 +43,24 @@ func keyCanon(k benchproc.Key) (s string) {
 			s = ""
 		}
 	}()
-	v := reflect.ValueOf(k).Field(0)
-	if v.IsNil() {
+	if k.IsZero() {
 		return "<zero>"
 	}
-	vals := v.Elem().FieldByName("vals")
+	// public API only, and nothing that fills a cache of the projection (FlattenedFields and Key.String do)
 	var b strings.Builder
-	for i := 0; i < vals.Len(); i++ {
-		fmt.Fprintf(&b, "%q,", vals.Index(i).String())
+	var walk func(fs []*benchproc.Field)
+	walk = func(fs []*benchproc.Field) {
+		for _, f := range fs {
+			if f.IsTuple {
+				walk(f.Sub)
+				continue
+			}
+			if v := k.Get(f); v != "" {
+				fmt.Fprintf(&b, "%q=%q,", f.Name, v)
+			}
+		}
 	}
+	walk(k.Projection().Fields())
 	return b.String()
 }
 
@@ -340,7 +348,7 @@ func c15ParseCSV(s string) ([]c15Table, error) {
 			if k, v, ok := strings.Cut(lines[i], ": "); ok {
 				running[k] = v
 			} else {
-				running[lines[i]] = ""
+				running[strings.TrimSuffix(lines[i], ":")] = "" // "key:" (or "key: " above): not set in this table
 			}
 			i++
 		}
@@ -351,7 +359,9 @@ func c15ParseCSV(s string) ([]c15Table, error) {
 		sort.Strings(ks)
 		var hdr []string
 		for _, k := range ks {
-			hdr = append(hdr, k+": "+running[k])
+			if running[k] != "" { // a key without value is as good as an absent one
+				hdr = append(hdr, k+": "+running[k])
+			}
 		}
 		rd := csv.NewReader(strings.NewReader(strings.Join(lines[i:], "\n")))
 		rd.FieldsPerRecord = -1
